@@ -381,8 +381,19 @@ def _validated_upstream(prog, f, n):
                 ok, _ = esc.protected(ff, site, types)
                 targ = SX.real_args(site)[0]
                 # the same token's text is what is stored into the annotation
-                stores = [x for x in SX.walk(g.body) if (lambda w: w and w[1] is not None and SX.is_node(SX.strip(w[0])) and SX.strip(w[0]).get('q', '').endswith('AnnotationNode::value') and any(
-                    SX.show(y) == SX.show(targ) for y in SX.walk(w[1])))(SX.write_target(x))]
+                def origin(e_, depth=0):
+                    # a local that is only ever given one value stands for that value (`numberOfShots = <helper's result> = tok.value`)
+                    e_ = SX.strip(e_)
+                    if depth > 5 or not (SX.is_node(e_) and e_.get('k') == 'ref' and e_.get('kind') == 'var' and not e_.get('global')):
+                        return e_
+                    srcs = [v_['init'] for v_ in SX.walk(g.body) if v_['k'] == 'var' and v_['id'] == e_.get('id') and SX.is_node(v_.get('init')) and
+                            not (SX.strip(v_['init']).get('k') in ('construct', 'initlist') and not (SX.real_args(SX.strip(v_['init'])) if SX.strip(v_['init']).get('k') == 'construct' else SX.strip(v_['init']).get('items')))]
+                    srcs += [w_[1] for x_ in SX.walk(g.body) for w_ in [SX.write_target(x_)] if w_ and w_[2] == '=' and SX.is_node(SX.strip(w_[0])) and SX.strip(w_[0]).get('id') == e_.get('id')]
+                    if len(srcs) != 1:
+                        return e_
+                    return origin(srcs[0], depth + 1)
+                stores = [x for x in SX.walk(g.body) if (lambda w: w and w[1] is not None and SX.is_node(SX.strip(w[0])) and SX.strip(w[0]).get('q', '').endswith('AnnotationNode::value') and (any(
+                    SX.show(y) == SX.show(targ) for y in SX.walk(w[1])) or SX.show(origin(w[1])) == SX.show(targ)))(SX.write_target(x))]
                 if ok and stores:
                     return 'Parser::parseFunctionAnnotation converts the same text under try and rejects it'
     return None
